@@ -47,6 +47,9 @@ fn order_programs() -> Vec<(String, String)> {
     for (n, s) in snippets {
         v.push((format!("order.{}", n), (*s).to_string()));
     }
+    // patterns whose text begins with the letters other programs use as flags (a cache keyed by
+    // flags + pattern without a separator would confuse them)
+    v.push(("order.regexp-flaglike-patterns".to_string(), "[/item/.test('TEM'), /item/.test('an item'), /s.x/.test('\\nx'), /s.x/.test('s-x'), /m^a/.test('b\\na'), /gibc/.test('aBC'), /gibc/.test('gibc'), /y\\d+/.test('12'), 'aXbx'.replace(/gix/, '-'), 'aXbx'.replace(/x/, '-'), /i/.test('I'), /im/.test('M')].join('|')".to_string()));
     // programs that walk many freshly allocated objects through the built-ins that keep
     // visited-sets / recursion guards
     for n in [50usize, 400, 2000] {
@@ -79,6 +82,7 @@ const HOSTILE_PREDECESSORS: &[(&str, &str)] = &[
     ("abandoned-generators-and-promises", "function* g(){ try { yield {a: 1}; yield {b: 2}; } finally { } } var it = g(); it.next(); var pending = new Promise(function(){}); pending.then(function(){ return 1; }); Promise.reject(new Error('unhandled')); var s = new Set(); for (var i = 0; i < $N; i++) s.add({i: i}); 'left'"),
     ("regexp-and-string-failures", "var r = []; try { new RegExp('(', 'g'); } catch (e) { r.push(e.name); } try { 'x'.repeat(-1); } catch (e) { r.push(e.name); } try { 'abc'.replace(/b/g, function(){ throw new Error('replace'); }); } catch (e) { r.push(e.message); } try { null.x; } catch (e) { r.push(e.name); } try { (123).toFixed(1000); } catch (e) { r.push(e.name); } r.join()"),
     ("class-and-symbol-failures", "class A { constructor(){ throw new Error('ctor'); } } class B extends A { constructor(){ super(); this.x = 1; } } var r = []; try { new B(); } catch (e) { r.push(e.message); } var o = {}; o[Symbol.toPrimitive] = function(){ throw new Error('prim'); }; try { o + 1; } catch (e) { r.push(e.message); } try { `${o}`; } catch (e) { r.push(e.message); } r.join()"),
+    ("regexp-flag-twins", "var r = []; r.push(/tem/i.test('ITEM'), /.x/s.test('\\nx'), /^a/m.test('b\\na'), /bc/gi.exec('aBC') !== null, /\\d+/y.test('12'), new RegExp('tem', 'i').test('TEM'), new RegExp('.x', 's').test('\\nx'), 'aXbx'.replace(/x/gi, '-'), 'a\\nb'.split(/$/m).length); r.join()"),
     ("throws-at-top", "var junk = []; for (var i = 0; i < $N; i++) junk.push({i: i, s: 'x' + i}); null.boom;"),
 ];
 
